@@ -123,6 +123,16 @@ theorem user_code_runs_iff_decoded (s : Spec) : (unary s).ran = true ↔ s.dec =
 theorem undecodable_request_is_invalid_argument (s : Spec) (h : s.dec = .plain) : (unary s).code = 3 := by
   unfold unary; rw [h]; rfl
 
+/-- the same gate in front of streaming endpoints: the endpoint gets the stream iff the first message and the metadata decoded,
+    and the status of a refused request is the one the unary handler gives -/
+theorem stream_user_code_runs_iff_decoded (d e : Step) : (stream d e).2 = true ↔ d = .ok := by
+  cases d <;> simp [stream]
+
+theorem stream_refusal_like_unary (d e : Step) (h : d ≠ .ok) (s : Spec) (hs : s.dec = d) : (stream d e).1 = (unary s).code := by
+  obtain ⟨sd, se, sc, hh, tt⟩ := s
+  subst hs
+  cases sd <;> simp_all [stream, unary, failed]
+
 example : unary ⟨.ok, .ok, .ok, [("x-a", ["h"])], [("x-b", ["t1", "t2"])]⟩ = ⟨0, true, true, [("x-a", ["h"])], [("x-b", ["t1", "t2"])]⟩ := rfl
 example : (unary ⟨.svc { Temporary := true }, .ok, .ok, [], []⟩).code = 14 := by decide
 end handler
